@@ -29,7 +29,13 @@
      * Restart / Load — new Compactor, load_pending_deletions;
      * QGet / QStale / QPin / QRead / QUnpin — a query: chunk list from the
                     catalog (fresh or stale view), pin, read, guard drop;
-     * Tick       — the only way time advances (never backwards).
+     * Tick       — the only way the wall clock moves; a negative tick is a clock
+                    stepped back (garbage_collect / schedule_deletion read the raw
+                    wall clock, the retention cut-off comes from the BoundedClock,
+                    which never goes backwards: field hw);
+     * DiskEdit   — pending-deletions.json extended from outside the compactor
+                    under test (entries dated in the future, the past, now);
+     * SwapFail   — complete_compaction failed: nothing swapped, nothing scheduled.
 
    Time is in nanoseconds (Z).  Only definitions here. *)
 From CS Require Import Base.Prelude.
@@ -60,7 +66,8 @@ Record retev := mkRev { r_path : path; r_max : Z; r_cutoff : Z }.      (* retent
 Record qryev := mkQev { qe_q : N; qe_missing : list path }.             (* files a query could not read *)
 
 Record st := mkSt {
-  now : Z;                          (* wall clock *)
+  now : Z;                          (* wall clock reading (chrono::Utc::now); may be stepped back *)
+  hw : Z;                           (* BoundedClock::high_water_ns of the running compactor *)
   cat : list (path * (Z * Z));      (* live catalog: path -> (min_ts, max_ts) *)
   ever : list path;                 (* ghost: every path ever registered or scheduled *)
   pending : list (path * Z);        (* Compactor::pending_deletions (volatile): path, scheduled_at *)
@@ -79,7 +86,7 @@ Record st := mkSt {
 }.
 
 Definition init (t0 : Z) : st :=
-  mkSt t0 [] [] [] [] [] [] [] false [] [] 0 [] [] [] [].
+  mkSt t0 0 [] [] [] [] [] [] [] false [] [] 0 [] [] [] [].
 
 (* ---------- small list helpers ---------- *)
 Fixpoint remove1 (x : N) (l : list N) : list N :=
@@ -129,7 +136,10 @@ Definition load_merge (file pend : list (path * Z)) : list (path * Z) :=
 
 (* ---------- steps ---------- *)
 Inductive label :=
-| Tick (d : Z)
+| Tick (d : Z)                      (* the wall clock moves by d; d < 0 = stepped back (NTP, operator) *)
+| DiskEdit (es : list (path * Z))   (* entries appended to pending-deletions.json from outside
+                                       (a predecessor whose clock ran ahead, an operator) *)
+| SwapFail (srcs : list path) (tgt : path)  (* complete_compaction returned Err: `?` leaves compact_l0 *)
 | Register (p : path) (mn mx : Z)
 | Swap (srcs : list path) (tgt : path)
 | GcFilter
@@ -149,31 +159,43 @@ Inductive label :=
 
 (* field updates, written out (no record-update syntax in plain Coq) *)
 Definition with_now (s : st) (v : Z) : st :=
-  mkSt v (cat s) (ever s) (pending s) (disk s) (psnap s) (pins s) (objs s) (gc_active s) (gcsel s) (gcall s)
+  mkSt v (hw s) (cat s) (ever s) (pending s) (disk s) (psnap s) (pins s) (objs s) (gc_active s) (gcsel s) (gcall s)
        (gc_cutoff s) (queries s) (dlog s) (rlog s) (qlog s).
 Definition with_cat_sched (s : st) (c : list (path * (Z * Z))) (ev : list path) (pe : list (path * Z))
            (rl : list retev) : st :=
-  mkSt (now s) c ev pe (disk s) (psnap s) (pins s) (objs s) (gc_active s) (gcsel s) (gcall s)
+  mkSt (now s) (hw s) c ev pe (disk s) (psnap s) (pins s) (objs s) (gc_active s) (gcsel s) (gcall s)
        (gc_cutoff s) (queries s) (dlog s) rl (qlog s).
 Definition with_register (s : st) (c : list (path * (Z * Z))) (ev ob : list path) : st :=
-  mkSt (now s) c ev (pending s) (disk s) (psnap s) (pins s) ob (gc_active s) (gcsel s) (gcall s)
+  mkSt (now s) (hw s) c ev (pending s) (disk s) (psnap s) (pins s) ob (gc_active s) (gcsel s) (gcall s)
        (gc_cutoff s) (queries s) (dlog s) (rlog s) (qlog s).
 Definition with_gc (s : st) (pe : list (path * Z)) (ob : list path) (act : bool) (sel all : list path)
            (cut : Z) (dl : list delev) : st :=
-  mkSt (now s) (cat s) (ever s) pe (disk s) (psnap s) (pins s) ob act sel all cut (queries s) dl (rlog s) (qlog s).
+  mkSt (now s) (hw s) (cat s) (ever s) pe (disk s) (psnap s) (pins s) ob act sel all cut (queries s) dl (rlog s) (qlog s).
 Definition with_disk (s : st) (d sn : list (path * Z)) : st :=
-  mkSt (now s) (cat s) (ever s) (pending s) d sn (pins s) (objs s) (gc_active s) (gcsel s) (gcall s)
+  mkSt (now s) (hw s) (cat s) (ever s) (pending s) d sn (pins s) (objs s) (gc_active s) (gcsel s) (gcall s)
        (gc_cutoff s) (queries s) (dlog s) (rlog s) (qlog s).
 Definition with_query (s : st) (pi : list path) (qs : list (N * qstate)) (ql : list qryev) : st :=
-  mkSt (now s) (cat s) (ever s) (pending s) (disk s) (psnap s) pi (objs s) (gc_active s) (gcsel s) (gcall s)
+  mkSt (now s) (hw s) (cat s) (ever s) (pending s) (disk s) (psnap s) pi (objs s) (gc_active s) (gcsel s) (gcall s)
        (gc_cutoff s) qs (dlog s) (rlog s) ql.
+
+Definition with_hw (s : st) (v : Z) : st :=
+  mkSt (now s) v (cat s) (ever s) (pending s) (disk s) (psnap s) (pins s) (objs s) (gc_active s) (gcsel s)
+       (gcall s) (gc_cutoff s) (queries s) (dlog s) (rlog s) (qlog s).
+Definition with_disk_ever (s : st) (d : list (path * Z)) (ev : list path) : st :=
+  mkSt (now s) (hw s) (cat s) ev (pending s) d (psnap s) (pins s) (objs s) (gc_active s) (gcsel s)
+       (gcall s) (gc_cutoff s) (queries s) (dlog s) (rlog s) (qlog s).
+
+(* BoundedClock::now_nanos: `wall.max(prev + 1)`, never backwards *)
+Definition bclock (s : st) : Z := Z.max (now s) (hw s + 1).
 
 Definition del_events (t : Z) (pinned : list path) (ps : list path) : list delev :=
   map (fun p => mkDev p t (memN p pinned)) ps.
 
 Definition step (c : gcfg) (s : st) (x : label) : st :=
   match x with
-  | Tick d => with_now s (now s + Z.max 0 d)
+  | Tick d => with_now s (now s + d)
+  | DiskEdit es => with_disk_ever s (disk s ++ es) (map fst es ++ ever s)
+  | SwapFail _ _ => s
   | Register p mn mx =>
       with_register s (aset N.eqb p (mn, mx) (cat s)) (add_set p (ever s)) (add_set p (objs s))
   | Swap srcs tgt =>
@@ -210,14 +232,15 @@ Definition step (c : gcfg) (s : st) (x : label) : st :=
         with_gc s (gc_retain sel (pending s)) (filter (fun o => negb (memN o sel)) (objs s)) false [] []
                 cutoff (rev (del_events (now s) (pins s) sel) ++ dlog s)
   | Retention =>
-      let cutoff := ret_cutoff c (now s) in
+      let cutoff := ret_cutoff c (bclock s) in
       let sel := ret_select cutoff (cat s) in
       let ps := map fst sel in
-      with_cat_sched s (cat_remove ps (cat s)) (ever s) (pending s ++ map (fun p => (p, now s)) ps)
-                     (rev (map (fun '(p, (_, mx)) => mkRev p mx cutoff) sel) ++ rlog s)
+      with_hw (with_cat_sched s (cat_remove ps (cat s)) (ever s) (pending s ++ map (fun p => (p, now s)) ps)
+                              (rev (map (fun '(p, (_, mx)) => mkRev p mx cutoff) sel) ++ rlog s))
+              (bclock s)
   | PersistSnap => with_disk s (disk s) (pending s)
   | PersistPut => with_disk s (psnap s) (psnap s)
-  | Restart => with_disk (with_gc s [] (objs s) false [] [] (gc_cutoff s) (dlog s)) (disk s) []
+  | Restart => with_hw (with_disk (with_gc s [] (objs s) false [] [] (gc_cutoff s) (dlog s)) (disk s) []) 0
   | Load => with_gc s (load_merge (disk s) (pending s)) (objs s) (gc_active s) (gcsel s) (gcall s)
                     (gc_cutoff s) (dlog s)
   | QGet q a b =>
@@ -257,7 +280,7 @@ Definition deletes (c : gcfg) (s : st) (x : label) : list path :=
 Definition schedules (c : gcfg) (s : st) (x : label) : list path :=
   match x with
   | Swap srcs tgt => if amem N.eqb tgt (cat_remove srcs (cat s)) then srcs else []
-  | Retention => map fst (ret_select (ret_cutoff c (now s)) (cat s))
+  | Retention => map fst (ret_select (ret_cutoff c (bclock s)) (cat s))
   | _ => []
   end.
 
@@ -267,6 +290,9 @@ Definition schedules (c : gcfg) (s : st) (x : label) : list path :=
 Definition guard (s : st) (x : label) : bool :=
   match x with
   | Register p _ _ => negb (memN p (ever s))
+  (* entries written from outside never name a chunk the catalog references
+     (duplicates of live paths are out of scope) *)
+  | DiskEdit es => forallb (fun '(p, _) => negb (amem N.eqb p (cat s))) es
   | _ => true
   end.
 
@@ -347,3 +373,30 @@ Definition drv_finish (c : gcfg) (s : st) : st :=
 (* compactor restart: new Compactor, `run` loads the file and starts its first cycle *)
 Definition drv_restart (c : gcfg) (s : st) : st :=
   drv_begin c (step c (step c s Restart) Load).
+
+(* ---------- clock discipline and the time of a pass ---------- *)
+Definition tick_nonneg (x : label) : bool :=
+  match x with Tick d => 0 <=? d | _ => true end.
+
+(* the wall-clock reading the pass that performs the delete took at its filter *)
+Definition pass_time (c : gcfg) (s : st) (x : label) : Z :=
+  match x with
+  | GcDelete _ => gc_cutoff s + g_grace c
+  | _ => now s
+  end.
+
+(* ---------- cycles cut short by a metadata error ---------- *)
+(* enforce_retention fails at its first delete_chunk: `?` ends
+   run_compaction_cycle after the GC part, before the persist *)
+Definition after_deletes_x (c : gcfg) (s : st) : st :=
+  if gc_active s
+  then match gcsel s with
+       | [] => step c s GcEnd
+       | _ => s
+       end
+  else s.
+Definition drv_begin_x (c : gcfg) (s : st) : st := step c s GcFilter.
+Definition drv_delete_x (c : gcfg) (s : st) (p : path) : st :=
+  if gc_active s && memN p (gcsel s) then after_deletes_x c (step c s (GcDelete p)) else s.
+Definition drv_finish_x (c : gcfg) (s : st) : st :=
+  after_deletes_x c (fold_left (fun a p => step c a (GcDelete p)) (gcsel s) s).
